@@ -314,6 +314,57 @@ func c03Serialiser(c *Ctx, r *Report, p *Prov, rule string) {
 		list = append(list, f)
 	}
 	sort.Slice(list, func(i, j int) bool { return list[i].Name() < list[j].Name() })
+	// who may touch the output buffer: only the buffer's own write methods (judged below)
+	// and the serialiser's own functions
+	allowedBuf := map[string]bool{"(*bytes.Buffer).WriteByte": true, "(*bytes.Buffer).Write": true, "(*bytes.Buffer).WriteString": true,
+		"(*bytes.Buffer).Bytes": true, "(*bytes.Buffer).Len": true, "(*bytes.Buffer).String": true, "(*bytes.Buffer).Grow": true}
+	for _, f := range list {
+		var bufs []ssa.Value
+		for _, prm := range f.Params {
+			if prm.Type().String() == "*bytes.Buffer" {
+				bufs = append(bufs, prm)
+			}
+		}
+		allInstrs(f, func(i ssa.Instruction) {
+			if al, ok := i.(*ssa.Alloc); ok && al.Type().String() == "*bytes.Buffer" {
+				bufs = append(bufs, al)
+			}
+		})
+		for _, b := range bufs {
+			var bad []string
+			n := 0
+			var visit func(v ssa.Value, depth int)
+			visit = func(v ssa.Value, depth int) {
+				for _, use := range referrers(v) {
+					n++
+					switch x := use.(type) {
+					case *ssa.DebugRef:
+					case *ssa.MakeInterface, *ssa.ChangeInterface:
+						if depth < 3 {
+							visit(x.(ssa.Value), depth+1)
+						}
+					case ssa.CallInstruction:
+						cc := x.Common()
+						k := calleeKey(cc)
+						if allowedBuf[k] && len(cc.Args) > 0 && cc.Args[0] == v {
+							continue
+						}
+						if callee := cc.StaticCallee(); callee != nil && fns[callee] {
+							continue
+						}
+						bad = append(bad, "handed to "+shortKey(k)+" at "+c.InstrPos(use))
+					default:
+						bad = append(bad, fmt.Sprintf("%T at %s", use, c.InstrPos(use)))
+					}
+				}
+			}
+			visit(b, 0)
+			sort.Strings(bad)
+			r.Check(len(bad) == 0, rule, f.Name()+":buffer-writers", c.Pos(f.Pos()),
+				fmt.Sprintf("the output buffer is written only through its own write methods and the serialiser's functions (%d uses)", n),
+				"something else writes into the output buffer (its bytes are not provably json.Marshal output or structural constants): "+strings.Join(bad, "; "))
+		}
+	}
 	structural := map[int64]bool{'{': true, '}': true, '[': true, ']': true, ',': true, ':': true}
 	closeOf := map[int64]int64{'{': '}', '[': ']'}
 	for _, f := range list {
